@@ -344,7 +344,23 @@ class QueryHandler:
             if not is_unicast:
                 if known_answers_set is None:  # pragma: no branch
                     known_answers_set = known_answers.lookup_set()
-                self.question_history.add_question_at_time(question, now, known_answers_set)
+                # A packet with several questions lists the known answers of all of
+                # them together. Only those that answer this question are remembered
+                # with it, or the answers to the other questions would later look like
+                # answers we do not know and the question would never be suppressed.
+                question_key = question.key
+                question_type = question.type
+                self.question_history.add_question_at_time(
+                    question,
+                    now,
+                    {
+                        record
+                        for record in known_answers_set
+                        if record.key == question_key and question_type in (record.type, _TYPE_ANY)
+                    }
+                    if len(questions) > 1
+                    else known_answers_set,
+                )
             answer_set = self._answer_question(
                 question, strategy.strategy_type, strategy.types, strategy.services, known_answers
             )
